@@ -3,7 +3,9 @@ use crate::c03_curves::*;
 use crate::fields::*;
 use crate::plain::*;
 use crate::sym::{any, assume};
+use crate::towers::*;
 use crate::toy_curves::*;
+use ark_ff::{Fp2, Fp3};
 use ark_ec::{
     short_weierstrass::{self as sw, SWCurveConfig, SWFlags},
     twisted_edwards::{self as te, TECurveConfig, TEFlags},
@@ -77,14 +79,98 @@ fn field_unique<F: Tiny + CanonicalSerializeWithFlags + CanonicalDeserializeWith
     assert!(ok);
 }
 
+// ---- extension fields: K coordinates over a one-limb prime field ---------------------------------------------------
+/// one flag value: bytes written == serialized_size_with_flags == (K-1) plain coordinates + one flagged coordinate; the bytes are the
+/// coordinates in order c0, c1, .. (little endian each) with the flag bits in the top bits of the LAST byte; deserializes to (x, flag)
+fn ext_flag_roundtrip<E, F: Tiny, FL: Flags + PartialEq, const K: usize, const CAP: usize>(x: &E, cs: &[F; K], flag: FL) -> bool
+where
+    E: CanonicalSerializeWithFlags + CanonicalDeserializeWithFlags + PartialEq,
+{
+    let mut buf = [0u8; CAP];
+    let mut w: &mut [u8] = &mut buf[..];
+    if x.serialize_with_flags(&mut w, flag).is_err() {
+        return false;
+    }
+    let written = CAP - w.len();
+    let fb = (F::BITS as usize + 7) / 8;
+    let want = fb * (K - 1) + (F::BITS as usize + FL::BIT_SIZE + 7) / 8;
+    let mut ok = written == want && x.serialized_size_with_flags::<FL>() == want;
+    ok &= match E::deserialize_with_flags::<_, FL>(&buf[..written]) {
+        Ok((y, f)) => y == *x && f == flag,
+        Err(_) => false,
+    };
+    let mut k = 0;
+    while k < K {
+        let end = if k + 1 == K { written } else { (k + 1) * fb };
+        let mut v: u64 = 0;
+        let mut i = k * fb;
+        while i < end && i < CAP {
+            v |= (buf[i] as u64) << (8 * (i - k * fb));
+            i += 1;
+        }
+        let fmask = if k + 1 == K { (flag.u8_bitmask() as u64) << (8 * (written - 1 - k * fb)) } else { 0 };
+        ok &= (v & !fmask) == cs[k].val() as u64 && (v & fmask) == fmask;
+        k += 1;
+    }
+    ok
+}
+/// ALL elements x 4 modes x every flag value
+fn ext_roundtrip<E, F: Tiny, const K: usize, const CAP: usize>(mk: fn(&[F; K]) -> E)
+where
+    E: CanonicalSerializeWithFlags + CanonicalDeserializeWithFlags + CanonicalSerialize + CanonicalDeserialize + PartialEq,
+{
+    let cs: [F; K] = core::array::from_fn(|_| F::any());
+    let x = mk(&cs);
+    let (c, v) = any_mode();
+    let mut buf = [0u8; CAP];
+    let mut w: &mut [u8] = &mut buf[..];
+    let r = x.serialize_with_mode(&mut w, c);
+    let written = CAP - w.len();
+    let back = E::deserialize_with_mode(&buf[..written], c, v);
+    crate::cover!(cs[K - 1].val() == F::P - 1 && cs[0].val() == 0);
+    let mut ok = r.is_ok() && written == x.serialized_size(c) && written == K * ((F::BITS as usize + 7) / 8) && matches!(back, Ok(y) if y == x);
+    ok &= ext_flag_roundtrip::<E, F, EmptyFlags, K, CAP>(&x, &cs, EmptyFlags);
+    ok &= ext_flag_roundtrip::<E, F, SWFlags, K, CAP>(&x, &cs, SWFlags::YIsPositive)
+        && ext_flag_roundtrip::<E, F, SWFlags, K, CAP>(&x, &cs, SWFlags::YIsNegative)
+        && ext_flag_roundtrip::<E, F, SWFlags, K, CAP>(&x, &cs, SWFlags::PointAtInfinity);
+    ok &= ext_flag_roundtrip::<E, F, TEFlags, K, CAP>(&x, &cs, TEFlags::XIsPositive) && ext_flag_roundtrip::<E, F, TEFlags, K, CAP>(&x, &cs, TEFlags::XIsNegative);
+    assert!(ok);
+}
+/// uniqueness: EVERY byte string of the advertised length that deserializes re-serializes to exactly the same bytes
+fn ext_unique<E, FL: Flags, const LEN: usize>()
+where
+    E: CanonicalSerializeWithFlags + CanonicalDeserializeWithFlags,
+{
+    let bytes: [u8; LEN] = any();
+    let r = E::deserialize_with_flags::<_, FL>(&bytes[..]);
+    crate::cover!(r.is_ok() && bytes[LEN - 1] != 0);
+    crate::cover!(r.is_err());
+    let ok = match r {
+        Ok((x, f)) => {
+            let mut out = [0u8; LEN];
+            let mut w: &mut [u8] = &mut out[..];
+            x.serialize_with_flags(&mut w, f).is_ok() && w.is_empty() && out == bytes
+        },
+        Err(_) => true,
+    };
+    assert!(ok);
+}
+
 /// ALL points x 4 modes, AFFINE only (one serialization, one deserialization per query)
 fn sw_affine_roundtrip<C: SWCurveConfig + Toy, const CAP: usize>(subgroup_only: bool)
 where
     C::BaseField: Tiny,
 {
+    sw_affine_roundtrip_r::<C, CAP>(if subgroup_only { 1 } else { 0 })
+}
+/// restrict: 0 = all points, 1 = subgroup points only, 2 = subgroup points when the mode validates, all points otherwise
+fn sw_affine_roundtrip_r<C: SWCurveConfig + Toy, const CAP: usize>(restrict: u8)
+where
+    C::BaseField: Tiny,
+{
     let i = any_index::<C>();
-    assume(!subgroup_only || C::T.insub[i]);
     let (c, v) = any_mode();
+    assume(restrict == 0 || C::T.insub[i] || (restrict == 2 && matches!(v, Validate::No)));
     let a = sw_affine::<C>(i);
     let mut b1 = [0u8; CAP];
     let mut w1: &mut [u8] = &mut b1[..];
@@ -237,6 +323,21 @@ crate::harnesses! { REG;
     /// quick required | uniqueness F_251 (hand-written config): EVERY 1-byte string without flags, EVERY 2-byte string with SW / TE flags
     #[unwind(12)]
     fn c09_field_unique_f251() { field_unique::<HF251, EmptyFlags, 1>(); field_unique::<HF251, SWFlags, 2>(); field_unique::<HF251, TEFlags, 2>() }
+    /// quick required | Fp2 over F_241 (8-bit base field: flags need an extra byte after the LAST coordinate only): ALL elements, 4 modes, every flag value: round trip, bytes written == advertised size == 2 (+1 with flags), coordinate layout c0, c1 with the flags in the top bits of the last byte
+    #[unwind(12)]
+    fn c09_fp2_f241() { ext_roundtrip::<S241_2, DF241, 2, 4>(|c| Fp2::new(c[0], c[1])) }
+    /// quick required | Fp3 over F_241: ALL elements, 4 modes, every flag value: size 3 (+1 with flags), layout c0, c1, c2 + flags
+    #[unwind(12)]
+    fn c09_fp3_f241() { ext_roundtrip::<S241_3, DF241, 3, 5>(|c| Fp3::new(c[0], c[1], c[2])) }
+    /// quick required | Fp2 over F_13 (flags share the last coordinate's byte) and Fp3 over F_7: ALL elements, 4 modes, every flag value
+    #[unwind(12)]
+    fn c09_fp2_fp3_small() { ext_roundtrip::<M13_2, DF13, 2, 4>(|c| Fp2::new(c[0], c[1])); ext_roundtrip::<F7_3, PF7, 3, 5>(|c| Fp3::new(c[0], c[1], c[2])) }
+    /// quick required | uniqueness Fp2 over F_241: EVERY 2-byte string without flags and EVERY 3-byte string with SW flags re-serializes to itself or is rejected (non-reduced coordinates, stray flag bits)
+    #[unwind(12)]
+    fn c09_fp2_unique_f241() { ext_unique::<S241_2, EmptyFlags, 2>(); ext_unique::<S241_2, SWFlags, 3>() }
+    /// thorough required | uniqueness Fp3 over F_241: EVERY 3-byte string without flags, EVERY 4-byte string with SW / TE flags
+    #[unwind(12)]
+    fn c09_fp3_unique_f241() { ext_unique::<S241_3, EmptyFlags, 3>(); ext_unique::<S241_3, SWFlags, 4>(); ext_unique::<S241_3, TEFlags, 4>() }
     /// thorough required timeout=2400 | uniqueness F_65521: EVERY 2-byte string without flags, EVERY 3-byte string with SW flags
     #[unwind(12)]
     fn c09_field_unique_f65521() { field_unique::<DF65521, EmptyFlags, 2>(); field_unique::<DF65521, SWFlags, 3>() }
@@ -256,6 +357,12 @@ crate::harnesses! { REG;
     /// quick required | SW cofactor 4: ALL points in ALL Jacobian rescalings serialize (both compression modes) to the same bytes as their affine form, at the advertised size
     #[unwind(20)]
     fn c09_sw_proj_bytes() { sw_proj_bytes::<SwCof4, 3>() }
+    /// quick required | SW b = 0: ALL points (the order-two point (0, 0) and the identity included) in ALL rescalings serialize to the same bytes as their affine form, at the advertised size
+    #[unwind(20)]
+    fn c09_sw_proj_bytes_b0() { sw_proj_bytes::<SwB0, 3>() }
+    /// quick required unwindset=sw_double_and_add:5,>::pow:6,SqrtPrecomputation:7 | SW b = 0 (cofactor 4): ALL affine points x 4 modes (unchecked modes for points outside the subgroup): round trip distinguishes (0, 0) from the identity
+    #[unwind(70)]
+    fn c09_sw_affine_b0() { sw_affine_roundtrip_r::<SwB0, 3>(2) }
     /// thorough required timeout=3000 unwindset=sw_double_and_add:5,>::pow:6,SqrtPrecomputation:7 | SW a=0: ALL points x 4 modes, affine and projective serialization and deserialization in one query
     #[unwind(70)]
     fn c09_sw_points_a0() { sw_point_roundtrip::<SwA0, 3>(false) }
